@@ -52,9 +52,11 @@ def main():
                 "demo_exit_patched": r.get("demo_patched"),
                 "demo_exit_unpatched": r.get("demo_clean"),
             },
+            "checks_not_run": r.get("checks_not_run", []),
             "checks_that_fire": r.get("fired", {}),
             "checks_with_analysis_error": sorted(r.get("errors", {})),
             "detected": bool(r.get("fired")),
+            "target_fires": (meta.get("property", prop) or prop).upper()[:3] in r.get("fired", {}),
         }
         with open(os.path.join(out, "meta.json"), "w") as f:
             json.dump(m, f, indent=1)
